@@ -629,6 +629,11 @@ func (c *SpecCtx) call(x *ast.CallExpr) SpecVal {
 	case "fneg":
 		a := c.tr(x.Args[0])
 		return SpecVal{T: app(ft.ufun("fneg", []Sort{"F64"}, "F64"), a.T), Typ: a.Typ, Sort: "F64"}
+	case "runecount":
+		// the number of code points of a string: the length of []rune(s) in the code
+		a := c.tr(x.Args[0])
+		ft.d.axiom("runecount range", "(forall ((s Str)) (! (and (<= 0 (runecount s)) (<= (runecount s) (slen s))) :pattern ((runecount s))))")
+		return SpecVal{T: app(ft.ufun("runecount", []Sort{"Str"}, "Int"), a.T), Typ: intType, Sort: "Int"}
 	case "strlt":
 		a, b := c.tr(x.Args[0]), c.tr(x.Args[1])
 		return bv(app(ft.ufun("strlt", []Sort{"Str", "Str"}, "Bool"), a.T, b.T))
